@@ -253,7 +253,9 @@ impl<'codegen, 'grammar, W: Write, C> CodeGenerator<'codegen, 'grammar, W, C> {
         rust!(
             self.out,
             "{}struct {}Parser {{",
-            self.grammar.nonterminals[&self.start_symbol].visibility,
+            self.grammar.nonterminals[&self.start_symbol]
+                .visibility
+                .in_nested_module(),
             self.user_start_symbol
         );
         if intern_token {
@@ -279,7 +281,9 @@ impl<'codegen, 'grammar, W: Write, C> CodeGenerator<'codegen, 'grammar, W, C> {
         rust!(
             self.out,
             "{}fn new() -> {}Parser {{",
-            self.grammar.nonterminals[&self.start_symbol].visibility,
+            self.grammar.nonterminals[&self.start_symbol]
+                .visibility
+                .in_nested_module(),
             self.user_start_symbol
         );
         if intern_token {
@@ -302,7 +306,9 @@ impl<'codegen, 'grammar, W: Write, C> CodeGenerator<'codegen, 'grammar, W, C> {
         rust!(self.out, "#[allow(dead_code)]");
         self.out
             .fn_header(
-                &self.grammar.nonterminals[&self.start_symbol].visibility,
+                &self.grammar.nonterminals[&self.start_symbol]
+                    .visibility
+                    .in_nested_module(),
                 "parse".to_owned(),
             )
             .with_parameters(Some("&self".to_owned()))
